@@ -24,6 +24,10 @@ def MintToken_guard_2 (token_Mintable : Bool) : Option (Bool) := do
 def MintToken_guard_3 (coinMinted : Coin) (mintableAmt : Int) : Option (Bool) := do
   some (Int_GT coinMinted.amount mintableAmt)
 
+/-- branch condition: `recipient.Empty()` -/
+def MintToken_cond_4 (read_recipient_Empty : Bool) : Option (Bool) := do
+  some read_recipient_Empty
+
 def GetTokenMintFee_mintFee_1 (fee : Coin) (params_MintTokenFeeRatio : Dec) : Option (Int) := do
   let t1 ← Dec_Mul (LegacyNewDecFromInt fee.amount) params_MintTokenFeeRatio
   let t2 ← Dec_TruncateInt t1
@@ -43,6 +47,6 @@ def calcFeeByBase_actualFee_1 (baseFee : Int) (feeFactor : Dec) : Option (Dec) :
 def untranslated : List String := []
 
 /-- names of the translated definitions -/
-def translated : List String := ["MintToken_precision_1", "MintToken_mintableAmt_1", "MintToken_guard_1", "MintToken_guard_2", "MintToken_guard_3", "GetTokenMintFee_mintFee_1", "feeHandler_communityTaxCoin_1", "calcFeeByBase_actualFee_1"]
+def translated : List String := ["MintToken_precision_1", "MintToken_mintableAmt_1", "MintToken_guard_1", "MintToken_guard_2", "MintToken_guard_3", "MintToken_cond_4", "GetTokenMintFee_mintFee_1", "feeHandler_communityTaxCoin_1", "calcFeeByBase_actualFee_1"]
 
 end Irismod.Gen.PureTokenFee
